@@ -179,6 +179,31 @@ extern "C" void vp_main() {
   vp_observe("n", o1.n);
   d1.m_transport = nullptr; d2.m_transport = nullptr;
 }
+#elif defined(H_INFO)
+// C20: arbitrary INFO frames against an arbitrary info-transfer state: indices into m_infoBuf[17] and the reads of
+// notifyInfoRetrieved (data[0..8]) must stay in bounds (built-in CBMC checks are the obligations here)
+extern "C" void vp_main() {
+  MiniTransport* tr = new MiniTransport();
+  EnhancedDevice dev(tr);
+  MiniListener lst;
+  dev.setListener(&lst);
+  dev.m_extraFeatures = vp_nondet_u8();
+  uint8_t il = vp_nondet_u8(), ip = vp_nondet_u8();
+  vp_assume(il <= 18 && ip <= 18);         // whatever earlier frames may have left behind (the code caps both at 17)
+  dev.m_infoLen = il; dev.m_infoPos = ip;
+  for (int i = 0; i < 17; i++) dev.m_infoBuf[i] = vp_nondet_u8();
+  for (int f = 0; f < L; f++) {
+    uint8_t d = vp_nondet_u8();
+    tr->append(static_cast<uint8_t>(0xC0 | (3 << 2) | (d >> 6)));   // <INFO> d
+    tr->append(static_cast<uint8_t>(0x80 | (d & 0x3f)));
+    symbol_t v = 0; ArbitrationState as = as_none;
+    result_t r = dev.recv(0, &v, &as);
+    vp_assert("info-frames-deliver-no-bus-symbol", r == RESULT_ERR_TIMEOUT);
+    vp_assert("info-position-stays-inside-the-buffer", dev.m_infoPos <= 17 || dev.m_infoPos == ip);
+  }
+  if (dev.m_infoLen == 0 && il > 1) vp_cover("info-transfer-completed-or-reset");
+  dev.m_transport = nullptr;
+}
 #else
 #error "select a harness"
 #endif
